@@ -69,4 +69,5 @@ let () = iter_lines (fun line ->
       Buffer.add_string b "nb";
       for x = lo to hi do Buffer.add_string b (" " ^ string_of_int (int_of_z (nbits (z_of_int x)))) done;
       print_endline (Buffer.contents b)
+  | "ms" :: _ -> print_endline "ms -"
   | _ -> print_endline "?")
